@@ -1,6 +1,8 @@
 package props
 
 import (
+	"sort"
+
 	"github.com/Syuparn/pangaea/object"
 )
 
@@ -82,7 +84,16 @@ func compObjs(
 		return object.BuiltInFalse
 	}
 
-	for sym, pair1 := range *o1.Pairs {
+	// NOTE: compare in fixed order (map iteration order differs in each run
+	// and == of elements may have side effects)
+	syms := make([]object.SymHash, 0, len(*o1.Pairs))
+	for sym := range *o1.Pairs {
+		syms = append(syms, sym)
+	}
+	sort.Slice(syms, func(i, j int) bool { return syms[i] < syms[j] })
+
+	for _, sym := range syms {
+		pair1 := (*o1.Pairs)[sym]
 		pair2, ok := (*o2.Pairs)[sym]
 		if !ok {
 			return object.BuiltInFalse
